@@ -593,3 +593,99 @@ Proof.
 Qed.
 End ELaws.
 End EOSP.
+
+(* ================================================================== exact_finish_time *)
+Section ExactP.
+Context {T : Type} (N : Num T) {P J : Type}.
+
+(* WHFast, safe_mode = 0 and keep_unsynchronized = 0: integrate with exact finishing (n+1 full steps of dt, one of dt')
+   = the same steps in safe mode.  The laws are needed for dt (the merged drifts of the full steps); the shortened
+   step starts from a synchronized state and needs none. *)
+Lemma w_exact_finish (O : @WOps T P J) dt dt' (c : wcfg) n s0 :
+  (forall j, from_inertial O (to_inertial_sync O j) = j) ->
+  (forall k j, corrector O true k (corrector O false k j) = j) ->
+  (forall j, corrector2 O true (corrector2 O false j) = j) ->
+  (forall j, drift O (half N dt) (drift O (half N dt) j) = drift O dt j) ->
+  (forall j, drift O (dt58 N dt) (drift O (dt38 N dt) j) = drift O dt j) ->
+  w_init_ok c = true -> w_var c = false -> coherent O s0 ->
+  w_integrate_exact N O dt dt' (S n) (with_mode c false false) s0
+  = w_step N O dt' (with_mode c true false) (iter (S n) (w_step N O dt (with_mode c true false)) s0).
+Proof.
+  intros l1 l2 l3 l4 l5 hok hvar hco. unfold w_integrate_exact.
+  rewrite (unsafe_eq_safe_S N O dt l1 l2 l3 l4 l5 c hok hvar n s0 hco).
+  rewrite <- (unsafe_eq_safe_S N O dt l1 l2 l3 l4 l5 c hok hvar n s0 hco).
+  set (x := iter (S n) (w_step N O dt (with_mode c false false)) s0).
+  assert (hx : Inv x).
+  { unfold x. cbn [iter]. destruct (first_step N O dt c hok hvar s0 hco) as (_ & i0).
+    assert (G : forall m y, Inv y -> Inv (iter m (w_step N O dt (with_mode c false false)) y)).
+    { induction m; intros y iy; [exact iy|]. cbn [iter]. apply IHm. apply (commute_step N O dt l1 l2 l3 l4 l5 c hok hvar y iy). }
+    apply G. exact i0. }
+  destruct hx as (a & b & d).
+  assert (hc : coherent O (w_sync N O dt (with_mode c false false) x)).
+  { rewrite (sync_unsynced N O dt c hok x a d). split; [reflexivity|]. right. right. cbn. rewrite l1. reflexivity. }
+  destruct (first_step N O dt' c hok hvar _ hc) as (e & _). rewrite e. reflexivity.
+Qed.
+End ExactP.
+
+(* ================================================================== WHFast512 *)
+Section W512P.
+Context {T : Type} (N : Num T) {P J : Type} (O : @XOps T P J) (dt : T) (gr : bool).
+Notation xst := (@xst P J).
+
+Lemma x_sync_idem keep (s : xst) : x_sync N O dt keep (x_sync N O dt keep s) = x_sync N O dt keep s.
+Proof. destruct s as [p j sy]. unfold x_sync. cbn. destruct sy; [reflexivity|]. destruct keep; reflexivity. Qed.
+
+(* keep_unsynchronized: no law *)
+Definition Rx (x y : xst) : Prop :=
+  xpjh x = xpjh y /\ x_is_sync x = x_is_sync y /\ (x_is_sync x = true -> xpart x = xpart y).
+Lemma Rx_refl x : Rx x x. Proof. repeat split; auto. Qed.
+Lemma Rx_trans x y z : Rx x y -> Rx y z -> Rx x z.
+Proof. intros (a & b & d) (a' & b' & d'). repeat split; try congruence. intros h. rewrite d by auto. apply d'. congruence. Qed.
+Lemma x_sync_Rx x : Rx (x_sync N O dt true x) x.
+Proof. destruct x as [p j sy]. unfold x_sync, Rx. cbn. destruct sy; cbn; repeat split; auto; discriminate. Qed.
+Lemma x_step_Rx x y : Rx x y -> x_step N O dt gr x = x_step N O dt gr y /\ (x_is_sync x = true -> False) \/
+                                 Rx (x_step N O dt gr x) (x_step N O dt gr y).
+Proof.
+  intros (a & b & d). right. destruct x as [p j sy]. destruct y as [p' j' sy']. cbn in *. subst.
+  unfold x_step, Rx. cbn. destruct sy'; cbn.
+  - rewrite d by reflexivity. repeat split; auto.
+  - repeat split; auto; discriminate.
+Qed.
+Lemma x_step_Rx' x y : Rx x y -> Rx (x_step N O dt gr x) (x_step N O dt gr y).
+Proof. intros h. destruct (x_step_Rx x y h) as [(_ & _)|r]; [|exact r]. destruct (x_step_Rx x y h) as [(e & _)|r]; [rewrite e; apply Rx_refl|exact r]. Qed.
+Lemma x_iter_Rx n x y : Rx x y -> Rx (iter n (x_step N O dt gr) x) (iter n (x_step N O dt gr) y).
+Proof. revert x y. induction n; intros x y h; [exact h|]. cbn [iter]. apply IHn. apply x_step_Rx'. exact h. Qed.
+Lemma x_run_steps n y : x_run N O dt true gr y (repeat XStep n) = iter n (x_step N O dt gr) y.
+Proof. revert y. induction n; intros y; [reflexivity|]. simpl. unfold x_run in *. simpl. apply IHn. Qed.
+
+Lemma x_transparent : forall w x y, Rx x y ->
+  Rx (x_run N O dt true gr x w) (x_run N O dt true gr y (x_steps_only w)).
+Proof.
+  induction w as [|k w IH]; intros x y h; [exact h|].
+  destruct k; unfold x_run in *; simpl.
+  - apply IH. apply x_step_Rx'. exact h.
+  - rewrite fold_left_app. fold (x_run N O dt true gr y (repeat XStep n)). rewrite x_run_steps.
+    apply IH. eapply Rx_trans; [apply x_sync_Rx|]. apply x_iter_Rx. exact h.
+  - apply IH. eapply Rx_trans; [apply x_sync_Rx|exact h].
+  - apply IH. exact h.
+Qed.
+Lemma x_sync_part_Rx x y : Rx x y -> xpart (x_sync N O dt true x) = xpart (x_sync N O dt true y).
+Proof. intros (a & b & d). destruct x as [p j sy]. destruct y as [p' j' sy']. cbn in *. subst. unfold x_sync. cbn. destruct sy'; cbn; auto. Qed.
+
+(* synchronize after every step = synchronize once at the end, under the two laws *)
+Section XLaws.
+Hypothesis L_dh : forall j, x_to_dh O (x_to_inertial O j) = j.
+Hypothesis L_drift : forall j, xdrift O (xhalf N dt) (xdrift O (xhalf N dt) j) = xdrift O dt j.
+Lemma x_commute x : x_is_sync x = false ->
+  x_sync N O dt false (x_step N O dt gr (x_sync N O dt false x)) = x_sync N O dt false (x_step N O dt gr x).
+Proof. intros a. destruct x as [p j sy]. cbn in a. subst. unfold x_step, x_sync. cbn. rewrite L_dh, L_drift. reflexivity. Qed.
+Lemma x_unsafe_eq_safe n s :
+  x_sync N O dt false (iter n (x_step N O dt gr) s) = iter n (fun y => x_sync N O dt false (x_step N O dt gr y)) (x_sync N O dt false s).
+Proof.
+  revert s. induction n; intros s; [reflexivity|]. cbn [iter]. rewrite IHn. f_equal.
+  destruct (x_is_sync s) eqn:E.
+  - assert (u : x_sync N O dt false s = s) by (unfold x_sync; rewrite E; reflexivity). rewrite u. reflexivity.
+  - symmetry. apply x_commute. exact E.
+Qed.
+End XLaws.
+End W512P.
